@@ -10,6 +10,7 @@ import (
 	"fmt"
 	"io"
 	"runtime"
+	"strings"
 	"sync"
 	"sync/atomic"
 	"testing"
@@ -467,7 +468,13 @@ func c11RcRun(tb rapid.TB, c c11RcCase) {
 	if c.Phase == "connect-stalled" {
 		d.stallWrites = true // the CONNECT write itself blocks: the peer accepted the connection and reads nothing
 	}
-	cliI, _ := NewReconnectClient(d, WithReconnectWait(base, 2*base))
+	rcOpts := []ReconnectOption{WithReconnectWait(base, 2*base)}
+	if c.Phase == "connected-keepalive" {
+		// an established connection with a realistic ping interval: Disconnect (with a live context) must not wait for the
+		// keep-alive's next tick
+		rcOpts = append(rcOpts, WithPingInterval(25*time.Second), WithTimeout(25*time.Second))
+	}
+	cliI, _ := NewReconnectClient(d, rcOpts...)
 	cli := cliI.(*reconnectClient)
 	mk := func() (context.Context, context.CancelFunc, func()) {
 		if c.Cause == "deadline" {
@@ -552,6 +559,10 @@ func c11RcRun(tb rapid.TB, c c11RcCase) {
 				if e.Kind == "STATE" {
 					return true
 				}
+			case "connected-keepalive":
+				if e.Kind == "STATE" && strings.HasPrefix(e.Note, "Active") {
+					return true
+				}
 			}
 		}
 		return false
@@ -598,7 +609,9 @@ func c11RcRun(tb rapid.TB, c c11RcCase) {
 				return false
 			}
 		})
-		dtrigger()
+		if c.Phase != "connected-keepalive" {
+			dtrigger()
+		}
 		select {
 		case err := <-discRet:
 			if err != nil && !errors.Is(err, want) {
@@ -625,11 +638,15 @@ func c11RcRun(tb rapid.TB, c c11RcCase) {
 
 func TestVerifC11_ReconnectGrid(t *testing.T) {
 	vRun(t, "C11", vOpts{CurFile: true, ReplayReps: 3}, func(rt *rapid.T) c11RcCase {
-		return c11RcCase{
+		c := c11RcCase{
 			Call:  rapid.SampledFrom([]string{"connect", "disconnect"}).Draw(rt, "call"),
-			Phase: rapid.SampledFrom([]string{"dialling", "connecting", "waiting", "activating", "dialling-noctx", "connect-stalled"}).Draw(rt, "phase"),
+			Phase: rapid.SampledFrom([]string{"dialling", "connecting", "waiting", "activating", "dialling-noctx", "connect-stalled", "connected-keepalive"}).Draw(rt, "phase"),
 			Cause: rapid.SampledFrom([]string{"cancel", "deadline"}).Draw(rt, "cause"),
 		}
+		if c.Phase == "connected-keepalive" {
+			c.Call = "disconnect"
+		}
+		return c
 	}, c11RcRun)
 }
 
